@@ -41,6 +41,11 @@ pub(crate) fn run() -> Result<(), Error> {
     }
     let cwd = env::current_dir()?;
     let want = redo::abs_path(&cwd, Path::new(&want));
+    // Name the target the way the builder does: with the symlinks in its directory
+    // part resolved.  Otherwise a target reached through a symlinked directory (or
+    // through `..` after one) would be listed with the ancestors of the link, which
+    // are not the directories whose default*.do files the builder considers.
+    let want = cwd.join(redo::relpath(&want, &cwd)?);
     for df in redo::possible_do_files(want) {
         let do_path = df.do_dir().join(df.do_file());
         let relpath = redo::relpath(&do_path, &cwd)?;
